@@ -1,6 +1,8 @@
 // C15 — WOPN/OPNI serialisation round-trips and never writes past its buffer (E2, narrow seam:
 // wopn_file.c called directly).
 #include "enumx.hpp"
+#include <array>
+#include <set>
 extern "C" {
 #include "wopn/wopn_file.h"
 }
@@ -259,6 +261,34 @@ int main(int argc, char **argv) {
             if(!guard) o.fail("C15/inst-destination-overrun", "size " + std::to_string(sz));
             free(blk); free(exact); o.nontrivial = true;
         } };
+      fams.push_back(F); }
+    { // many-bank shapes: the size checks of the writer are made per section (header, bank meta, instrument block), so every section/instrument boundary +-1 is a distinct case
+      static const unsigned SH[][2] = {{8,1},{1,8},{8,8},{9,2},{16,3},{3,16},{7,7},{64,64},{128,1},{1,128}};
+      static std::vector<std::array<uint64_t, 3>> cases;   // shape, version, destination size
+      size_t nshapes = thorough ? 10 : 7;
+      for(size_t sh = 0; sh < nshapes; sh++) for(int ver = 1; ver <= 2; ver++) {
+          WOPNFile *f = make_file(SH[sh][0], SH[sh][1], 3); size_t calc = WOPN_CalculateBankFileSize(f, (uint16_t)ver); WOPN_Free(f);
+          size_t hdr = ver == 2 ? 18 : 16, meta = ver == 2 ? 34 : 0, ins = ver == 2 ? 69 : 65; std::set<uint64_t> sz;
+          for(size_t k = 0; k <= hdr + 1; k++) sz.insert(k);
+          size_t pos = hdr; for(unsigned b = 0; b < SH[sh][0] + SH[sh][1]; b++) { pos += meta; for(long d = -1; d <= 1; d++) sz.insert((uint64_t)((long)pos + d)); }
+          for(unsigned b = 0; b < (SH[sh][0] + SH[sh][1]) * 128u; b++) { pos += ins; if(b % 128 == 127 || b % 128 == 0 || b % 16 == 5) for(long d = -1; d <= 1; d++) sz.insert((uint64_t)((long)pos + d)); }
+          for(uint64_t w = 1; w * 65536 < calc + 65536; w++) for(long d = -2; d <= 2; d++) { sz.insert((uint64_t)((long)(w * 65536) + d)); sz.insert((uint64_t)((long)(w * 65536 + hdr + meta * (SH[sh][0] + SH[sh][1])) + d)); }   // 16-bit wrap points
+          sz.insert(calc - 1); sz.insert(calc); sz.insert(calc + 2);
+          for(uint64_t x : sz) if(x <= calc + 2) cases.push_back({(uint64_t)sh, (uint64_t)ver, x}); }
+      en::Family F; F.name = "dest_sizes_many_banks"; F.count = cases.size(); F.chunk = 64; F.budget_s = 20; F.describe = "bank shapes (8+1, 1+8, 8+8, 9+2, 16+3, 3+16, 7+7" + std::string(thorough ? ", 64+64, 128+1, 1+128" : "") + ") x version {1,2} x destination sizes at every header byte, every bank-meta boundary +-1, instrument boundaries +-1 (first/last/every 16th of each bank), multiples of 65536 +-2 and the needed size -1/+0/+2";
+      F.run = [](uint64_t i, en::CaseOut &o) { unsigned sh = (unsigned)cases[i][0]; int ver = (int)cases[i][1]; size_t sz = (size_t)cases[i][2];
+        WOPNFile *f = make_file(SH[sh][0], SH[sh][1], 3); size_t calc = WOPN_CalculateBankFileSize(f, (uint16_t)ver);
+        static __thread size_t need_cache[10][3]; size_t &need = need_cache[sh][ver]; if(!need) need = written_size(calc + 8, [&](uint8_t *d, size_t c) { return WOPN_SaveBankToMem(f, d, c, (uint16_t)ver, 0); });
+        if(need == (size_t)-1 || need > calc) { o.fail("C15/calculated-size-too-small", "a successful save writes " + std::to_string(need) + " bytes, calculator says " + std::to_string(calc)); WOPN_Free(f); return; }
+        // the destination is the first sz bytes of an arena that is large enough for the whole image: an overrun lands in the guard area, not in foreign memory
+        size_t arena = calc + 64; uint8_t *blk = (uint8_t *)malloc(arena); memset(blk, 0xA5, arena);
+        int rc = WOPN_SaveBankToMem(f, blk, sz, (uint16_t)ver, 0);
+        size_t first_bad = (size_t)-1; for(size_t k = sz; k < arena; k++) if(blk[k] != 0xA5) { first_bad = k; break; }
+        if(sz < need) { if(rc == 0) o.fail("C15/small-destination-accepted", "destination of " + std::to_string(sz) + " bytes (needed " + std::to_string(need) + ") accepted for " + std::to_string(SH[sh][0]) + "+" + std::to_string(SH[sh][1]) + " banks, version " + std::to_string(ver)); else o.tags |= 1ull << T_REFUSED_SMALL; }
+        else if(sz >= calc && rc != 0) o.fail("C15/sufficient-destination-refused", "destination of " + std::to_string(sz) + " bytes (calculated size " + std::to_string(calc) + ") refused");
+        if(first_bad != (size_t)-1) o.fail("C15/destination-overrun", "wrote byte " + std::to_string(first_bad) + " beyond a destination of " + std::to_string(sz) + " bytes (" + std::to_string(SH[sh][0]) + "+" + std::to_string(SH[sh][1]) + " banks, version " + std::to_string(ver) + ")");
+        if(i % 997 == 0) o.sample = std::to_string(SH[sh][0]) + "+" + std::to_string(SH[sh][1]) + " banks, version " + std::to_string(ver) + ", destination " + std::to_string(sz) + " of " + std::to_string(need);
+        free(blk); WOPN_Free(f); o.nontrivial = true; };
       fams.push_back(F); }
     { // accepted byte strings: header byte substitutions of valid v1/v2 files
       en::Family F; F.name = "accepted_header_bytes"; F.count = 2 * 20 * 256; F.chunk = 64; F.budget_s = 20; F.describe = "each of the first 20 bytes of a valid v2 and v1 file x all 256 values; oracle applies to the strings the loader accepts (version field 0/1 under the v2 magic, zero bank counts, garbage flag bits)";
